@@ -199,7 +199,15 @@ where
         self.log(format!("access({:?}, {:?}) -> {:?}", h, path, out));
         let m = self.model.get(&h).cloned();
         let middle = m.is_some() && self.model.keys().next_back() != Some(&h);
-        let v = judge(C::NAME, C::IS_ZST, C::TRACKED, alive, self.model.is_empty(), m, h, path, p, out)?;
+        let restricted_path = matches!(path, Path::RestrictGetOther | Path::RestrictGetOtherMut | Path::RestrictReadGetOther);
+        let v = match judge(C::NAME, C::IS_ZST, C::TRACKED, alive, self.model.is_empty(), m, h, path, p, out) {
+            Ok(v) => v,
+            Err((p0, msg)) => {
+                // a restricted view's other-entity lookup is C13's subject as well as C03's / C04's
+                let p1 = if restricted_path && self.prop == "C13" { "C13" } else { p0 };
+                return Err((p1, msg));
+            }
+        };
         if !alive {
             self.stale_probes.insert(path);
             if self.live.iter().any(|l| l.id() == h.id()) {
@@ -486,7 +494,7 @@ where
                         }
                         (None, Some(r)) => {
                             return Err((
-                                if alive { "C13" } else { "C03" },
+                                if alive || self.prop == "C13" { "C13" } else { "C03" },
                                 format!("{}: get_other{}({:?}) returned {:?} although the entity is {}", name, suffix, h, r, if alive { "alive without this component" } else { "dead" }),
                             ));
                         }
